@@ -115,7 +115,10 @@ def run(F, chk):
             via_checked = any(c.endswith("checked_add") or c.endswith("checked_sub") or c.endswith("saturating_add") for c in sl["callees"]) or \
                 (s["rv"]["k"] == "bin")
             # a Some edge of the checked_add result dominates the write
-            if any(c.endswith("checked_add") or c.endswith("checked_sub") for c in sl["callees"]):
+            inexact = sorted(c.split("::")[-1] for c in sl["callees"] if c.endswith(("::max", "::min", "::clamp", "saturating_add", "saturating_sub", "wrapping_add", "wrapping_sub")))
+            if any(c.endswith("checked_add") or c.endswith("checked_sub") for c in sl["callees"]) and inexact and fn == "update_initial_window_size":
+                rc.violation(key, b.where(bi, si), "the stream window stored after a SETTINGS_INITIAL_WINDOW_SIZE change passes through %s: window arithmetic must be exact (RFC 9113 6.9.2 lets the window go negative; clamping forgets the deficit and later credit re-opens bytes the peer never granted)" % inexact)
+            elif any(c.endswith("checked_add") or c.endswith("checked_sub") for c in sl["callees"]):
                 rc.ok(key, b.where(bi, si), "value comes from the Some payload of checked_add/checked_sub")
             elif s["rv"]["k"] == "use" and any(c.endswith("::clamp") or c.endswith("::min") or c.endswith("saturating_add") for c in sl["callees"]):
                 rc.ok(key, b.where(bi, si), "value clamped/saturated")
